@@ -436,6 +436,10 @@ func (res *Resource) Purge(keepExtra int) { //nolint:gocognit
 		}
 	}
 
+	// The purge boundary is searched from the newest version downwards. Versions
+	// added since the last version selection are still appended at the end.
+	sort.Sort(res)
+
 	// Safeguard the amount of extra version to keep.
 	if keepExtra < 2 {
 		keepExtra = 2
